@@ -10,6 +10,10 @@ Three parties are compared on every call of every generated history:
 
 implementation vs reference  -> ctx.witness   (a concrete history on which the property fails on the real code)
 implementation vs model      -> ctx.compare   (the theorems no longer speak about this code)
+
+Stream `lib-through-machine`: the same histories as script text, parsed and executed by the implementation and by the Lean jump
+MACHINE whose library is that model (`BareModel/HostLib.lean`, second driver `drv_hostlib`, op "exec" on the parsed statement
+list with the initial pool and its aliasing) - the tie for the machine-level theorems of `BareProofs/HostLibBridge.lean`.
 """
 
 import copy
@@ -21,12 +25,14 @@ import urllib.parse
 from fractions import Fraction
 
 import fw
+import progen   # execution-stream helpers (canonical model form of a parsed script), used by the lib-through-machine stream
 
 ID = 'C15'
 LEVEL = 'proof'
-LEAN_TARGETS = ['BareProofs.C15']
+LEAN_TARGETS = ['BareProofs.C15', 'BareProofs.HostLibBridge']
 DRIVER = 'drv_c15'
 DRIVER_ROOT = 'Drv.C15'
+EXTRA_TARGETS = ['drv_hostlib']      # second execution driver (Drv/HostLibDrv.lean): the jump machine over HostLib.hostLib
 GEN = ['Args', 'LibFns']
 THEOREMS = [
     'C15.sig_table', 'C15.fail_table', 'C15.raw_table',
@@ -36,6 +42,13 @@ THEOREMS = [
     'C15.dictGet_dictSet', 'C15.dictGet_dictDel', 'C15.dictSet_keys',
     'C15.findFrom_spec', 'C15.lastMatch_spec', 'C15.split_join', 'C15.replace_split_join',
     'C15.regexEscape_literal', 'C15.regexEscape_call', 'C15.urlEncode_reversible', 'C15.urlEncode_call', 'C15.quoteByte_ascii',
+    # the library model as the library of the machine (BareModel/HostLib.lean, BareProofs/HostLibBridge.lean)
+    'HostLib.decFn_encFn', 'HostLib.encFn_decFn', 'HostLib.ofLib_toLib', 'HostLib.toLib_ofLib', 'HostLib.ofImpl_toImpl',
+    'HostLib.toImpl_ofImpl', 'HostLib.lib_call_is_lib', 'HostLib.lib_call_is_step', 'HostLib.callValue_lib',
+    'HostLib.machine_lib_frame', 'HostLib.machine_lib_fresh', 'HostLib.machine_lib_fail_unchanged',
+    'HostLib.machine_lib_unmodelled', 'HostLib.machine_lib_heap', 'HostLib.machine_history_refines',
+    'HostLib.machine_history_refines_execute', 'HostLib.rel_initState', 'HostLib.namesOK_vName', 'HostLib.namesOK_gen',
+    'HostLib.hostLib_truthyBool', 'HostLib.hostLib_noGlobalSet_except_system', 'HostLib.hostLib_other_noGlobalSet',
 ]
 ASSUMPTIONS = [
     'CPython str methods find/rfind/split/replace/strip/startswith/endswith and list/dict primitives behave as modelled over code points '
@@ -1078,7 +1091,9 @@ def run_batch(ctx, stream, st, specs, tags_of):
             calls.append(cc)
         reqs.append({'op': 'history', 'heap': spec['heap'], 'env': spec['env'], 'calls': calls})
     resps = ctx.driver.batch(reqs)
+    answered = []
     for spec, resp, run in zip(specs, resps, runs):
+        answered.append((spec, resp.get('steps', [{'bad': resp}])))
         wit, dis, info = check_history(spec, resp.get('steps', [{'bad': resp}]), run)
         nontrivial, tags = tags_of(spec, info)
         st.case({'heap': spec['heap'], 'env': spec['env'], 'calls': spec['calls']}, nontrivial=nontrivial, tags=tags)
@@ -1089,6 +1104,7 @@ def run_batch(ctx, stream, st, specs, tags_of):
             ctx.compare(stream, {'spec': spec, 'step': k, 'script': info['script']}, impl, model)
         else:
             ctx.compare(stream, None, 0, 0)
+    return answered
 
 
 def stream_lib(ctx):
@@ -1104,8 +1120,98 @@ def stream_lib(ctx):
         tags += ['fn:' + c['fn'] for c in spec['calls']]
         tags += ['unmodelled'] * info['unmodelled'] + ['failing-call'] * info['fails'] + ['ok-call'] * (len(spec['calls']) - info['fails'])
         return len(spec['calls']) >= 3 and any(FUNCS[c['fn']][2] for c in spec['calls']), tags
+    answered = []
     for i in range(0, len(specs), 400):
-        run_batch(ctx, 'lib', st, specs[i:i + 400], tags_of)
+        answered += run_batch(ctx, 'lib', st, specs[i:i + 400], tags_of)
+    return answered
+
+
+# ---------------------------------------------------------------------------------------------------------------------
+# The same histories through the MACHINE: script text -> parse_script -> execute_script  vs  drv_hostlib "exec"
+# ---------------------------------------------------------------------------------------------------------------------
+
+def machine_script(calls, nenv, consts):
+    """`v<k> = f(args...)` + a log line with the type of the result after every call; the script returns the last result."""
+    lines = []
+    for k, c in enumerate(calls):
+        args = [f'v{a["var"]}' if isinstance(a, dict) and 'var' in a else lit_text(a, consts) for a in c['args']]
+        lines.append(f'v{nenv + k} = {c["fn"]}({", ".join(args)})')
+        lines.append(f'systemLog(systemType(v{nenv + k}))')
+    lines.append(f'return v{nenv + len(calls) - 1}')
+    return '\n'.join(lines)
+
+
+def run_impl_machine(spec, text, consts, nvars):
+    """execute the script on the implementation -> {'state': canonical graph of v0..v<nvars-1> and the result, 'log', 'count'} | {'error'}"""
+    impl = fw.impl()
+    _, env, _ = build_pool(spec)
+    glob = {f'v{i}': v for i, v in enumerate(env)}
+    glob.update(consts)
+    log = []
+    options = {'globals': glob, 'maxStatements': 10 * len(spec['calls']) + 100, 'logFn': log.append}
+    try:
+        model = impl['parser'].parse_script(text)
+        result = impl['runtime'].execute_script(model, options)
+    except Exception as exc:  # pylint: disable=broad-except
+        return None, {'error': f'{type(exc).__name__}: {exc}'}
+    return model, {'state': canon_state([glob.get(f'v{i}') for i in range(nvars)] + [result]), 'log': log,
+                   'count': options.get('statementCount')}
+
+
+def modelled_prefix(spec, steps):
+    """the longest prefix of the history every call of which the Lean library model covers (drv_c15's answer)"""
+    k = 0
+    while k < len(spec['calls']) and k < len(steps) and steps[k].get('r') in ('ok', 'fail'):
+        k += 1
+    return k
+
+
+def stream_lib_through_machine(ctx, answered):
+    st = ctx.stream('lib-through-machine',
+                    'the histories of the lib stream, cut before the first call the library model does not cover, rendered as script text '
+                    '(v<k> = f(args...); systemLog(systemType(v<k>)); ... return v<last>), parsed and executed by the implementation AND by '
+                    'the Lean jump machine over HostLib.hostLib (drv_hostlib op "exec" on the parsed model, initial pool with its aliasing): '
+                    'result, every variable and the whole heap by reference, log, statement count must agree; '
+                    'non-trivial = at least 3 calls of which one mutates a container')
+    drv = fw.Driver('drv_hostlib')
+    todo = []
+    for spec, steps in answered:
+        k = modelled_prefix(spec, steps)
+        if k == 0:
+            continue
+        cut = {'heap': spec['heap'], 'env': spec['env'], 'calls': spec['calls'][:k]}
+        consts = {}
+        nenv = len(cut['env'])
+        text = machine_script(cut['calls'], nenv, consts)
+        model, impl_out = run_impl_machine(cut, text, consts, nenv + k)
+        todo.append((cut, text, consts, model, impl_out, k < len(spec['calls'])))
+    reqs = []
+    for cut, text, consts, model, impl_out, _ in todo:
+        nenv = len(cut['env'])
+        if model is None:
+            reqs.append({'op': 'none'})
+            continue
+        reqs.append({'op': 'exec', 'script': progen.canon_script(model),
+                     'pool': {'heap': cut['heap'], 'env': [[f'v{i}', p] for i, p in enumerate(cut['env'])]},
+                     'globals': [[name, text_] for name, text_ in consts.items()],
+                     'observe': [f'v{i}' for i in range(nenv + len(cut['calls']))],
+                     'max': 10 * len(cut['calls']) + 100, 'fuel': 100000})
+    resps = []
+    for i in range(0, len(reqs), 400):
+        resps += drv.batch(reqs[i:i + 400])
+    ctx.driver.requests += drv.requests
+    for (cut, text, consts, model, impl_out, was_cut), resp in zip(todo, resps):
+        calls = cut['calls']
+        tags = [f'len{min(len(calls) // 5 * 5, 30)}'] + (['cut-at-unmodelled'] if was_cut else ['whole-history'])
+        tags += ['fn:' + c['fn'] for c in calls]
+        st.case({'heap': cut['heap'], 'env': cut['env'], 'calls': calls},
+                nontrivial=len(calls) >= 3 and any(FUNCS[c['fn']][2] for c in calls), tags=tags)
+        if 'state' in resp and 'error' not in resp:
+            mstate = resp['state']
+            model_out = {'state': canon_model(mstate['env'], mstate['heap']), 'log': resp.get('log'), 'count': resp.get('count')}
+        else:
+            model_out = {k: v for k, v in resp.items() if k in ('error', 'bad', 'oof')} or {'bad': resp}
+        ctx.compare('lib-through-machine', {'spec': cut, 'script': text}, impl_out, model_out)
 
 
 def stream_args(ctx):
@@ -1231,7 +1337,8 @@ def streams(ctx):
     stream_args(ctx)
     stream_index(ctx)
     text_oracles(ctx)
-    stream_lib(ctx)
+    answered = stream_lib(ctx)
+    stream_lib_through_machine(ctx, answered)
 
 
 def search(ctx):
@@ -1292,10 +1399,21 @@ LEVEL_TEXT = ('Theorems over a heap model (arrays/objects as shared cells) for A
               'exactly its argument; percent-decoding urllib.parse.quote output gives back the UTF-8 bytes. Argument models, failure '
               'values, URL safe sets, re.escape specials are regenerated from the working tree on every run and must equal the '
               'documented tables (decide). The model is tied to library.py by histories executed through scripts and checked against '
-              'an independent pure-Python reference after every call.')
+              'an independent pure-Python reference after every call. The same model is the library of the jump machine '
+              '(HostLib.hostLib: Machine.Value and Lib.Value are isomorphic, a modelled library call of the machine is exactly one Lib.step), '
+              'so frame, freshness and failure hold for calls issued through Machine.callValue (machine_lib_frame/_fresh/_fail_unchanged: '
+              'nothing but the first argument of a mutator changes - no other cell, no global, no log line, not the statement counter) and any '
+              'straight-line script of library calls run by execM\u2080 / Machine.execute reaches the state Lib.runHistory (= the fold of the '
+              'reference operations) describes (machine_history_refines); tied by the lib-through-machine stream (script text executed by '
+              'the implementation and by the Lean machine over hostLib).')
 LEVEL_NOTE = ('Trusted: Lean kernel; extract.py; the correspondence harness and its reference Ref. Modelled not verified: CPython str/list/dict '
               'primitives, re.escape, urllib.parse.quote (tables re-extracted). Unmodelled (skipped, counted in evidence): match-function '
               'form of arrayIndexOf/arrayLastIndexOf, arrayJoin over non-integral numbers/datetimes/containers, stringLower/Upper on '
               'non-ASCII, surrogate code points, cyclic containers (F18), arraySort, stringNew. For string functions whose body already is '
               'a plain code-point operation (startsWith, endsWith, split, replace, trim, lower/upper) the reference IS the modelled '
-              'primitive: their contract is correspondence-strength (lib stream + Python reference), not a theorem.')
+              'primitive: their contract is correspondence-strength (lib stream + Python reference), not a theorem. Machine level: the '
+              'bridge theorems assume the call is one Lib models (decidable predicate Modelled / AllModelled); an unmodelled call falls back to '
+              'the HostImpl tree for systemLog, systemGlobalGet/Set, systemPartial, systemCompare, systemType, systemBoolean and the '
+              'predicate form of arrayIndexOf (machine_lib_heap: the heap is untouched unless a script call-back changes it) and to the '
+              'wrapper\'s null for every other name (machine_lib_unmodelled); history arguments are variables or null/boolean/number/string '
+              'literals (ArgOK).')
